@@ -36,7 +36,7 @@ const (
 	KReturn  = "return"
 	KRaise   = "raise"
 	KErrNew  = "errnew" // XErr.new("msg") as an expression (raises at construction)
-	KTryAcc  = "tryacc" // C13: recv.try.<steps>.<accessor>
+	KTry     = "try"    // recv.try.{|x| body}.<accessor Str: val | or | err?>  (C = default of or)
 	KProgram = "program"
 )
 
@@ -359,6 +359,16 @@ func printExpr(sb *strings.Builder, n *N, depth int) {
 			sb.WriteString(")")
 		}
 		printExpr(sb, n.B, depth)
+	case KTry:
+		printExpr(sb, n.A, depth)
+		sb.WriteString(".try.")
+		printExpr(sb, n.B, depth)
+		sb.WriteString("." + n.Str)
+		if n.Str == "or" {
+			sb.WriteString("(")
+			printExpr(sb, n.C, depth)
+			sb.WriteString(")")
+		}
 	case KVarC:
 		printExpr(sb, n.A, depth)
 		sb.WriteString(n.Chain.String())
